@@ -147,6 +147,15 @@ W void w_mra_ctor(void* o) { ::new (o) t_mra(rec(1)); }
 W void* w_mra_allocate(void* o, ulong bytes, ulong a) { VTRY return static_cast<memory_resource*>(static_cast<t_mra*>(o))->allocate(bytes, a); VCATCH(nullptr) }
 W void w_mra_deallocate(void* o, void* p, ulong bytes, ulong a) { static_cast<memory_resource*>(static_cast<t_mra*>(o))->deallocate(p, bytes, a); }
 
+// ---- memory_resource_allocator over memory_resource_adapter<rec>: RawAllocator -> memory_resource -> RawAllocator
+TRAITS_NC(mral, memory_resource_allocator, memory_resource_allocator)
+W void w_mral_ctor(void* o, void* leaf, ulong arg)
+{
+    (void)arg;
+    auto* r = ::new (leaf) t_mra(rec(1));
+    ::new (o) memory_resource_allocator(r);
+}
+
 // ---- deleters
 struct base { virtual ~base() { verif_dtor(1); } long x; };
 struct big : base { char pad[70000]; };
